@@ -90,7 +90,7 @@ class Gen:
                 self.templates.append({"Ns": "ns1", "Kind": "dp", "App": "api", "Policy": rng.choice(pol),
                                        "names": ["api-7f9c6d-x1", "api-7f9c6d-x2", "api-7f9c6d-x3"]})
             elif k == "dppool":
-                self.templates.append({"Ns": rng.choice(["ns1", "ns2"]), "Kind": "dp", "App": rng.choice(["job", "api"]), "Pool": "p1", "Policy": 0,
+                self.templates.append({"Ns": rng.choice(["ns1", "ns2"]), "Kind": "dp", "App": rng.choice(["job", "api"]), "Pool": "p1", "Policy": rng.choice([0, 0, 1, 2]),
                                        "names": ["job-7f9c6d-y1", "job-7f9c6d-y2"]})
             else:
                 self.templates.append({"Ns": "ns1", "Kind": "bare", "App": "", "Policy": rng.choice([0, 0, 2]), "names": ["bare-1", "solo"]})
@@ -492,8 +492,13 @@ def translate(hist, obs, ext=False):
             prev = d
             continue
         elif k == "reload":
-            conf = op["conf"]
-            t = "(PIpam (OConfigure %s false []))" % conf_trees(conf)
+            # a failing List inside ConfigurePool: nothing changes, the configuration in force stays (the next tick retries)
+            lf = any(c[2] and c[0] == "list" for c in calls)
+            if any(c[2] and c[0] != "list" for c in calls):
+                return clist(terms), len(terms), "store-fault-in-reload", meta
+            if not lf and res == "ok":
+                conf = op["conf"]
+            t = "(PIpam (OConfigure %s %s []))" % (conf_trees(op["conf"]), cbool(lf))
         elif k == "restart":
             t = "(PRestart %s)" % conf_trees(conf)
         if t is None:
